@@ -97,6 +97,11 @@ def run_pair(c):
     if a.overlap(b) != (common > 0) or b.overlap(a) != (common > 0):
         raise Violation("overlap: a=%s b=%s overlap()=%r/%r, common area %s" % (ea, eb, a.overlap(b), b.overlap(a), common),
                         "overlap")
+    # identical rectangles, also one rectangle object on both sides (a list in which an object occurs twice): the common region is itself
+    for p, ep in ((a, ea), (b, eb)):
+        if Fr(p.area_overlap(p)) != X.area(ep) or p.overlap(p) is not True or not p.is_inside(p) or (p * p) is None or frx(p * p) != ep:
+            raise Violation("a rectangle %s against itself: area_overlap %r, overlap %r, is_inside %r, intersection %s" % (
+                ep, p.area_overlap(p), p.overlap(p), p.is_inside(p), p * p), "self-pair")
     # intersection
     for p, q, ep, eq in ((a, b, ea, eb), (b, a, eb, ea)):
         i = p * q
